@@ -515,90 +515,99 @@ pub fn gen_readloop(ctx: &crate::Ctx) {
 // case:  `<hex response bytes> <cut,..>|<cut,..>|...` ; impl: per segmentation `OK,<status>,<hex body>` | `ERR,<kind>` joined by '#'
 pub fn run_clientread(case: &str) -> String {
     crate::util::note_current(case);
-    use khttp::{Client, ClientError};
     let (h, segs) = case.split_once(' ').unwrap();
     let bytes = unhex(h);
-    let mut outs = Vec::new();
+    let mut outs: Vec<String> = Vec::new();
     for cuts in segs.split('|') {
         let mut cs: Vec<usize> = cuts.split(',').filter(|x| !x.is_empty()).map(|x| x.parse().unwrap()).collect();
         cs.push(bytes.len());
-        let listener = TcpListener::bind("127.0.0.1:0").unwrap();
-        let addr = listener.local_addr().unwrap();
-        let tid = std::sync::Arc::new(AtomicI32::new(0));
-        let tid2 = tid.clone();
         let variant = outs.len();
-        let th = std::thread::spawn(move || {
-            tid2.store(unsafe { libc::syscall(libc::SYS_gettid) } as i32, Ordering::SeqCst);
-            let mut c = Client::new(addr);
-            let r = std::panic::catch_unwind(std::panic::AssertUnwindSafe(|| {
-                // the entry points of the client in turn: get, post with a body, exchange with an extension method; the body is
-                // read through body() or after into_parts()
-                let first = match variant % 3 { 0 => c.get("/", Headers::empty_nodate()), 1 => c.post("/p", Headers::empty_nodate(), &b"request body"[..]),
-                                                _ => c.exchange(&khttp::Method::from("PURGE"), "/x", Headers::empty_nodate(), std::io::empty()) };
-                match first {
-                    Ok(mut resp) => {
-                        let code = resp.status.code;
-                        let _ = resp.stream().peer_addr();
-                        let body = if variant % 2 == 0 { resp.body().vec() } else { let (_st, _h, mut b) = resp.into_parts(); b.vec() };
-                        match body {
-                            Ok(b) => format!("OK,{},{}", code, hex(&b)),
-                            Err(_) => format!("OK,{},BODYERR", code),
-                        }
-                    }
-                    Err(ClientError::ParsingFailure(khttp::HttpParsingError::UnexpectedEof)) => "ERR,incomplete".to_string(),
-                    Err(ClientError::UnexpectedEof) => "ERR,incomplete".to_string(),
-                    Err(ClientError::ParsingFailure(_)) => "ERR,rejected".to_string(),
-                    Err(_) => "ERR,io".to_string(),
-                }
-            }));
-            r.unwrap_or_else(|_| "PANIC".into())
-        });
-        // (never wait for ever: a client that does not connect, or does not finish, is reported, not waited for)
-        listener.set_nonblocking(true).unwrap();
-        let ta = Instant::now();
-        let accepted = loop { match listener.accept() { Ok(x) => break Some(x), Err(_) => { if ta.elapsed() > Duration::from_secs(3) { break None; } std::thread::sleep(Duration::from_millis(1)); } } };
-        let (mut s, _) = match accepted { Some(x) => x, None => { outs.push("NOCONNECT".into()); continue; } };
-        s.set_nonblocking(false).unwrap();
-        s.set_nodelay(true).unwrap();
-        // read the request head
-        let mut req = Vec::new();
-        let mut tmp = [0u8; 4096];
-        s.set_read_timeout(Some(Duration::from_secs(2))).unwrap();
-        while !req.windows(4).any(|w| w == b"\r\n\r\n") {
-            match s.read(&mut tmp) { Ok(0) | Err(_) => break, Ok(n) => req.extend_from_slice(&tmp[..n]) }
-        }
-        let t = tid.load(Ordering::SeqCst);
-        let mut prev = 0;
-        for c in cs {
-            if c > prev {
-                // wait until the client thread is blocked in its read again
-                let t0 = Instant::now();
-                let mut streak = 0;
-                while streak < 3 && t0.elapsed() < Duration::from_secs(2) && !th.is_finished() {
-                    if thread_state(t) == 'S' { streak += 1 } else { streak = 0 }
-                    std::thread::yield_now();
-                }
-                if th.is_finished() { break; }
-                let _ = s.write_all(&bytes[prev..c]);
-                // let the segment be consumed before the next one is written
-                std::thread::sleep(Duration::from_micros(300));
-                prev = c;
-            }
-        }
-        // wait for the client to block again (or finish), then end the stream
-        let t0 = Instant::now();
-        let mut streak = 0;
-        while streak < 3 && t0.elapsed() < Duration::from_secs(2) && !th.is_finished() {
-            if thread_state(t) == 'S' { streak += 1 } else { streak = 0 }
-            std::thread::yield_now();
-        }
-        let _ = s.shutdown(std::net::Shutdown::Both);
-        drop(s);
-        let tj = Instant::now();
-        while !th.is_finished() && tj.elapsed() < Duration::from_secs(5) { std::thread::sleep(Duration::from_millis(1)); }
-        if th.is_finished() { outs.push(th.join().unwrap_or_else(|_| "PANIC".into())); } else { outs.push("HANG".into()); }
+        // a client that does not connect or does not finish within the bounded waits is reported, not waited for; the
+        // segmentation is run once more first, so that a stall of the machine is not taken for one of the client
+        let mut r = clientread_one(&bytes, &cs, variant);
+        if r == "HANG" || r == "NOCONNECT" { r = clientread_one(&bytes, &cs, variant); }
+        outs.push(r);
     }
     outs.join("#")
+}
+
+fn clientread_one(bytes: &[u8], cs: &[usize], variant: usize) -> String {
+    use khttp::{Client, ClientError};
+    let cs = cs.to_vec();
+    let listener = TcpListener::bind("127.0.0.1:0").unwrap();
+    let addr = listener.local_addr().unwrap();
+    let tid = std::sync::Arc::new(AtomicI32::new(0));
+    let tid2 = tid.clone();
+            let th = std::thread::spawn(move || {
+        tid2.store(unsafe { libc::syscall(libc::SYS_gettid) } as i32, Ordering::SeqCst);
+        let mut c = Client::new(addr);
+        let r = std::panic::catch_unwind(std::panic::AssertUnwindSafe(|| {
+            // the entry points of the client in turn: get, post with a body, exchange with an extension method; the body is
+            // read through body() or after into_parts()
+            let first = match variant % 3 { 0 => c.get("/", Headers::empty_nodate()), 1 => c.post("/p", Headers::empty_nodate(), &b"request body"[..]),
+                                            _ => c.exchange(&khttp::Method::from("PURGE"), "/x", Headers::empty_nodate(), std::io::empty()) };
+            match first {
+                Ok(mut resp) => {
+                    let code = resp.status.code;
+                    let _ = resp.stream().peer_addr();
+                    let body = if variant % 2 == 0 { resp.body().vec() } else { let (_st, _h, mut b) = resp.into_parts(); b.vec() };
+                    match body {
+                        Ok(b) => format!("OK,{},{}", code, hex(&b)),
+                        Err(_) => format!("OK,{},BODYERR", code),
+                    }
+                }
+                Err(ClientError::ParsingFailure(khttp::HttpParsingError::UnexpectedEof)) => "ERR,incomplete".to_string(),
+                Err(ClientError::UnexpectedEof) => "ERR,incomplete".to_string(),
+                Err(ClientError::ParsingFailure(_)) => "ERR,rejected".to_string(),
+                Err(_) => "ERR,io".to_string(),
+            }
+        }));
+        r.unwrap_or_else(|_| "PANIC".into())
+    });
+    // (never wait for ever: a client that does not connect, or does not finish, is reported, not waited for)
+    listener.set_nonblocking(true).unwrap();
+    let ta = Instant::now();
+    let accepted = loop { match listener.accept() { Ok(x) => break Some(x), Err(_) => { if ta.elapsed() > Duration::from_secs(3) { break None; } std::thread::sleep(Duration::from_millis(1)); } } };
+    let (mut s, _) = match accepted { Some(x) => x, None => return "NOCONNECT".into() };
+    s.set_nonblocking(false).unwrap();
+    s.set_nodelay(true).unwrap();
+    // read the request head
+    let mut req = Vec::new();
+    let mut tmp = [0u8; 4096];
+    s.set_read_timeout(Some(Duration::from_secs(2))).unwrap();
+    while !req.windows(4).any(|w| w == b"\r\n\r\n") {
+        match s.read(&mut tmp) { Ok(0) | Err(_) => break, Ok(n) => req.extend_from_slice(&tmp[..n]) }
+    }
+    let t = tid.load(Ordering::SeqCst);
+    let mut prev = 0;
+    for c in cs {
+        if c > prev {
+            // wait until the client thread is blocked in its read again
+            let t0 = Instant::now();
+            let mut streak = 0;
+            while streak < 3 && t0.elapsed() < Duration::from_secs(2) && !th.is_finished() {
+                if thread_state(t) == 'S' { streak += 1 } else { streak = 0 }
+                std::thread::yield_now();
+            }
+            if th.is_finished() { break; }
+            let _ = s.write_all(&bytes[prev..c]);
+            // let the segment be consumed before the next one is written
+            std::thread::sleep(Duration::from_micros(300));
+            prev = c;
+        }
+    }
+    // wait for the client to block again (or finish), then end the stream
+    let t0 = Instant::now();
+    let mut streak = 0;
+    while streak < 3 && t0.elapsed() < Duration::from_secs(2) && !th.is_finished() {
+        if thread_state(t) == 'S' { streak += 1 } else { streak = 0 }
+        std::thread::yield_now();
+    }
+    let _ = s.shutdown(std::net::Shutdown::Both);
+    drop(s);
+    let tj = Instant::now();
+    while !th.is_finished() && tj.elapsed() < Duration::from_secs(5) { std::thread::sleep(Duration::from_millis(1)); }
+    if th.is_finished() { th.join().unwrap_or_else(|_| "PANIC".into()) } else { "HANG".into() }
 }
 
 pub fn gen_clientread(ctx: &crate::Ctx) {
